@@ -26,8 +26,8 @@ RULE = ('full Cartesian product of shape class x size (pairs) x angle x angular 
         'each crossed with the 5 include flags (flat query) and, on every 6th configuration per class, with all 9 query container forms x 5 flags; queries are generated in the shape '
         'frame at normalised radii {0,.3,.7,.9,.99,1-2^-10,1+2^-10,1.01,1.1,1.5,3} x 16 directions; a '
         'configuration is non-trivial when it has sure members and sure non-members within 1% of the boundary')
-BOUNDS = {'quick': '4 sizes (2^-10 .. 1.75*2^20), 6 angles x 3 representations, 2 centres, all classes, all includes, all containers',
-          'thorough': '18 sizes (9 of them crossed as all width x height pairs), 11 angles x 5 units x {Quantity, Angle}, 4 centres, all classes, all includes, all containers'}
+BOUNDS = {'quick': '5 sizes (2^-30, 2^-10 .. 1.75*2^20), 6 angles x 3 representations, 2 centres, all classes, all includes, all containers',
+          'thorough': '20 sizes (2^-30, 1.25*2^-40; 11 of them crossed as all width x height pairs), 11 angles x 5 units x {Quantity, Angle}, 4 centres, all classes, all includes, all containers'}
 ASSUMPTIONS = ['numpy elementwise arithmetic is trusted', 'positions closer to the boundary than the guard band '
                '(1e-9 relative + 64 ulp of the largest coordinate) are excepted, as the property states',
                'compiled pnpoly kernel is checked as built']
@@ -50,9 +50,13 @@ def _centres(tier):
     return ([K.CENTRES[1], K.CENTRES[2]] if tier == 'quick' else list(K.CENTRES)) + [INT_CENTRE]
 
 
+# sizes far below any absolute tolerance a membership test might (wrongly) apply; the guard band scales with the size
+TINY = {'quick': [2.0 ** -30], 'thorough': [2.0 ** -30, 1.25 * 2.0 ** -40]}
+
+
 def configs(tier):
-    S = K.sizes(tier)
-    P = K.pair_sizes(tier)
+    S = K.sizes(tier) + TINY[tier]
+    P = K.pair_sizes(tier) + TINY[tier]
     A = _angle_reps(tier)
     C = _centres(tier)
     out = []
